@@ -66,24 +66,44 @@ def main():
         sh("git -C /repo worktree remove --force %s" % wt)
         shutil.rmtree(wt, ignore_errors=True)
     print("confirmed:", json.dumps(meta["confirmed"]))
-    # ---- run the checks against /repo with the change applied
-    rc, out = sh("git -C /repo status --porcelain")
-    assert out.strip() == "", "/repo is not clean: " + out
+    # ---- run the checks against the change: either applied to /repo itself (SEED_IN_REPO=1: git -C /repo apply; checks;
+    # git -C /repo checkout -- .), or - the default, which leaves /repo alone while other runs use it - applied to a second
+    # scratch worktree that the checks build from (VERIF_REPO) with their evidence and replays sent to a scratch dir (VERIF_OUT)
+    in_repo = os.environ.get("SEED_IN_REPO") == "1"
     results = {}
-    rc, out = sh("git -C /repo apply %s" % patch)
-    assert rc == 0, out
+    env_extra = ""
+    if in_repo:
+        rc, out = sh("git -C /repo status --porcelain")
+        assert out.strip() == "", "/repo is not clean: " + out
+        rc, out = sh("git -C /repo apply %s" % patch)
+        assert rc == 0, out
+    else:
+        wt2, out2dir = "/tmp/sw2-" + sid, "/tmp/sw2-out-" + sid
+        sh("git -C /repo worktree remove --force %s" % wt2)
+        shutil.rmtree(wt2, ignore_errors=True)
+        shutil.rmtree(out2dir, ignore_errors=True)
+        os.makedirs(out2dir)
+        rc, out = sh("git -C /repo worktree add -q --detach %s HEAD && git -C %s apply %s" % (wt2, wt2, patch))
+        assert rc == 0, out
+        env_extra = "VERIF_REPO=%s VERIF_OUT=%s " % (wt2, out2dir)
     try:
         for p in [prop] + others:
             t0 = time.time()
-            rc, out = sh("./check %s %s" % (p, tier), cwd=VERIF, timeout=7200)
+            rc, out = sh("%s./check %s %s" % (env_extra, p, tier), cwd=VERIF, timeout=7200)
             viol = [l for l in out.splitlines() if l.startswith("VIOLATION")]
             clauses = [l.strip() for l in out.splitlines() if "violations by clause" in l]
-            results[p] = {"exit": rc, "violation_lines": len(viol), "wall_s": round(time.time() - t0, 1), "by_clause": clauses[:1]}
-            print("check %s %s -> exit %d, %d VIOLATION lines %s (%.0fs)" % (p, tier, rc, len(viol), clauses[:1], time.time() - t0))
+            drift = [l for l in out.splitlines() if l.startswith("[pipe] DRIFT")]
+            results[p] = {"exit": rc, "violation_lines": len(viol), "wall_s": round(time.time() - t0, 1), "by_clause": clauses[:1], "drift": drift[:1]}
+            print("check %s %s -> exit %d, %d VIOLATION lines %s %s (%.0fs)" % (p, tier, rc, len(viol), clauses[:1], drift[:1], time.time() - t0))
             if rc == 2:
                 print(out[-1500:])
     finally:
-        sh("git -C /repo checkout -- . && git -C /repo clean -fdq")
+        if in_repo:
+            sh("git -C /repo checkout -- . && git -C /repo clean -fdq")
+        else:
+            sh("git -C /repo worktree remove --force %s" % wt2)
+            shutil.rmtree(wt2, ignore_errors=True)
+            shutil.rmtree(out2dir, ignore_errors=True)
     rc, out = sh("git -C /repo status --porcelain")
     assert out.strip() == "", "/repo not restored: " + out
     dst = os.path.join(VERIF, "seeded", sid)
@@ -98,11 +118,12 @@ def main():
     meta["checks_run"] = dict(old.get("checks_run", {}), **{"%s %s" % (p, tier): r for p, r in results.items()})
     meta["needs"] = old.get("needs", "see notes.md")
     meta["ran"] = ["go build ./...", "go test -vet=off -count=1 ./... (with the change)", "demo with and without the change in a scratch worktree",
-                   "git -C /repo apply patch.diff; ./check <prop> %s; git -C /repo checkout -- ." % tier]
+                   ("git -C /repo apply patch.diff; ./check <prop> %s; git -C /repo checkout -- ." % tier) if in_repo else
+                   ("patch applied to a scratch worktree of /repo; VERIF_REPO=<worktree> VERIF_OUT=<scratch> ./check <prop> %s; worktree removed" % tier)]
     meta["detected_by"] = sorted(set(old.get("detected_by", [])) | {p for p, r in results.items() if r["exit"] == 1})
     json.dump(meta, open(mp, "w"), indent=1)
-    # restore the evidence of the unchanged tree? evidence files were rewritten by runs on the seeded tree:
-    print("NOTE: evidence/%s.json now describes a run on the seeded tree; re-run the check on the clean tree before committing" % prop)
+    if in_repo:
+        print("NOTE: evidence/%s.json now describes a run on the seeded tree; re-run the check on the clean tree before committing" % prop)
 
 
 if __name__ == "__main__":
